@@ -12,6 +12,10 @@ silently concretised.
 """
 from __future__ import annotations
 
+import os
+import pickle
+import struct
+import tempfile
 import time
 from fractions import Fraction
 
@@ -31,6 +35,7 @@ class BudgetExceeded(BaseException):
 
 
 _ENGINE = None
+SLOTS = None      # optional multiprocessing.Semaphore: one slot per *active* explorer process
 
 
 def engine() -> "Engine":
@@ -112,33 +117,29 @@ def _simp(e):
 
 
 def wrap(e):
-    """z3 term -> python constant when it is a numeral, else symbolic wrapper."""
+    """z3 term -> python constant when it is a literal, else symbolic wrapper (no simplification:
+    decide()/fork_int() simplify on demand)."""
     if z3.is_bool(e):
-        e = _simp(e)
         if z3.is_true(e):
             return True
         if z3.is_false(e):
             return False
         return SymBool(e)
     if z3.is_int(e):
-        s = _simp(e)
-        if z3.is_int_value(s):
-            return s.as_long()
-        return SymInt(s)
-    s = _simp(e)
-    if z3.is_rational_value(s):
-        f = Fraction(s.numerator_as_long(), s.denominator_as_long())
-        if f.denominator == 1:
-            # keep "float-ness": reals stay reals (python float when exact)
-            v = float(f.numerator)
-            if Fraction(v) == f:
-                return v
-        else:
-            v = f.numerator / f.denominator
-            if Fraction(v) == f:
-                return v
-        return SymReal(s)
-    return SymReal(s)
+        if z3.is_int_value(e):
+            return e.as_long()
+        return SymInt(e)
+    if z3.is_rational_value(e):
+        f = Fraction(e.numerator_as_long(), e.denominator_as_long())
+        v = f.numerator / f.denominator
+        if Fraction(v) == f:
+            return v
+    return SymReal(e)
+
+
+def wrap_s(e):
+    """wrap with simplification (use where constant folding matters)"""
+    return wrap(_simp(e))
 
 
 # ---------------------------------------------------------------------------
@@ -525,13 +526,13 @@ class SymList(list):
 # engine
 
 class Decision:
-    __slots__ = ("kind", "options", "idx", "tid")
+    __slots__ = ("kind", "options", "idx", "raw")
 
-    def __init__(self, kind, options, tid):
+    def __init__(self, kind, options, raw):
         self.kind = kind
         self.options = options
         self.idx = 0
-        self.tid = tid
+        self.raw = raw
 
 
 class Leaf:
@@ -540,7 +541,16 @@ class Leaf:
 
 
 class Engine:
-    def __init__(self, seed=0, solver_timeout_ms=60000, max_paths=None, logic=None, deadline=None):
+    def __init__(self, seed=0, solver_timeout_ms=60000, max_paths=None, logic=None, deadline=None, mode=None):
+        self.mode = mode or os.environ.get("SYMX_MODE", "fork")
+        self.fork_live = False
+        self.emitted = {}
+        self.exit_hooks = []
+        self.path = []
+        self.errors = []
+        self.child_hook = None
+        self._kids = []
+        self._owns_slot = False
         self.deadline = deadline
         self.seed = seed
         self.solver_timeout_ms = solver_timeout_ms
@@ -555,9 +565,13 @@ class Engine:
         self.samples = []
         self.exhaustive = True
         self._fresh = 0
+        self._memo = {}
         self._new_solver()
         self.stack = []
         self.pos = 0
+        self._lazy = []
+        self.pc = []
+        self._pending = []
         self.model = None
         self.on_leaf = None
         self.path_hooks = []
@@ -570,12 +584,20 @@ class Engine:
         self.solver.set("random_seed", self.seed % (2 ** 30))
 
     def _check(self, *assumptions):
+        self._flush()
         t0 = time.time()
         r = self.solver.check(*assumptions)
         self.stats["solver_time"] += time.time() - t0
         self.stats["queries"] += 1
         self.stats[str(r)] += 1
         return r
+
+    def memo(self, key, build):
+        """cache z3 term construction across the re-executions of one exploration"""
+        c = self._memo
+        if key not in c:
+            c[key] = build()
+        return c[key]
 
     def fresh(self, prefix="v"):
         self._fresh += 1
@@ -602,8 +624,13 @@ class Engine:
 
     # -- path condition
     def _add(self, c):
-        self.solver.add(c)
+        self._lazy.append(c)
         self.pc.append(c)
+
+    def _flush(self):
+        if self._lazy:
+            self.solver.add(*self._lazy)
+            self._lazy = []
 
     def _ensure_model(self):
         if self.model is None:
@@ -631,27 +658,37 @@ class Engine:
                 self.model = None
         # feasibility is checked lazily (next decision / leaf)
 
-    def decide(self, cond):
-        """branch on z3 Bool `cond`; returns the python bool taken on this path."""
-        cond = _simp(cond)
+    def decide(self, raw):
+        """branch on z3 Bool `raw`; returns the python bool taken on this path."""
+        if self.fork_live:
+            return self._decide_fork(raw)
+        if self.pos < len(self.stack):
+            d = self.stack[self.pos]
+            if d.kind == "b" and (d.raw is None or d.raw.eq(raw)):
+                if d.raw is None:
+                    d.raw = raw
+                self.pos += 1
+                v = d.options[d.idx]
+                self._add(raw if v else z3.Not(raw))
+                self.model = None
+                return v
+            cond = _simp(raw)
+            if z3.is_true(cond):
+                return True
+            if z3.is_false(cond):
+                return False
+            raise RuntimeError("non-deterministic replay at decision %d" % self.pos)
+        cond = _simp(raw)
         if z3.is_true(cond):
             return True
         if z3.is_false(cond):
             return False
-        if self.pos < len(self.stack):
-            d = self.stack[self.pos]
-            if d.tid is None:
-                d.tid = cond
-            if d.kind != "b" or not d.tid.eq(cond):
-                raise RuntimeError("non-deterministic replay at decision %d" % self.pos)
-            self.pos += 1
-            v = d.options[d.idx]
-            self._add(cond if v else z3.Not(cond))
-            self.model = None
-            return v
+        if self.deadline is not None and time.time() > self.deadline:
+            raise BudgetExceeded()
         m = self._ensure_model()
         v = z3.is_true(m.eval(cond, model_completion=True))
         other = z3.Not(cond) if v else cond
+        self._flush()
         self.solver.push()
         self.solver.add(other)
         r = self._check()
@@ -659,35 +696,43 @@ class Engine:
         if r == z3.unknown:
             self.unknowns.append("branch")
         if r == z3.unsat:
-            d = Decision("b", [v], cond)   # forced: recorded so that replay stays aligned
+            d = Decision("b", [v], raw)   # forced: recorded so that replay stays aligned
         else:
             self.stats["branch_points"] += 1
-            d = Decision("b", [v, not v], cond)
+            d = Decision("b", [v, not v], raw)
         self.stack.append(d)
         self.pos += 1
         self.stats["max_depth"] = max(self.stats["max_depth"], len(self.stack))
-        self._add(cond if v else z3.Not(cond))
+        self._add(raw if v else z3.Not(raw))
         return v
 
-    def fork_int(self, e):
-        """concretise integer term e by forking over all its feasible values."""
-        e = _simp(e)
-        if z3.is_int_value(e):
-            return e.as_long()
+    def fork_int(self, raw):
+        """concretise integer term by forking over all its feasible values."""
+        if z3.is_int_value(raw):
+            return raw.as_long()
+        if self.fork_live:
+            return self._fork_int_fork(raw)
         if self.pos < len(self.stack):
             d = self.stack[self.pos]
-            if d.tid is None:
-                d.tid = e
-            if d.kind != "i" or not d.tid.eq(e):
-                raise RuntimeError("non-deterministic replay at fork %d" % self.pos)
-            self.pos += 1
-            v = d.options[d.idx]
-            self._add(e == v)
-            self.model = None
-            return v
+            if d.kind == "i" and (d.raw is None or d.raw.eq(raw)):
+                if d.raw is None:
+                    d.raw = raw
+                self.pos += 1
+                v = d.options[d.idx]
+                self._add(raw == v)
+                self.model = None
+                return v
+            e = _simp(raw)
+            if z3.is_int_value(e):
+                return e.as_long()
+            raise RuntimeError("non-deterministic replay at fork %d" % self.pos)
+        e = _simp(raw)
+        if z3.is_int_value(e):
+            return e.as_long()
         m = self._ensure_model()
         v0 = m.eval(e, model_completion=True).as_long()
         opts = [v0]
+        self._flush()
         self.solver.push()
         while True:
             self.solver.add(e != opts[-1])
@@ -702,12 +747,230 @@ class Engine:
                 self.solver.pop()
                 raise Unsupported("fork over more than 4096 values")
         self.solver.pop()
-        self._add(e == v0)
+        self._add(raw == v0)
         if len(opts) > 1:
             self.stats["forks"] += 1
-        self.stack.append(Decision("i", opts, e))
+        self.stack.append(Decision("i", opts, raw))
         self.pos += 1
         return v0
+
+    # -- fork-mode exploration: the process forks at every real branch point; the child takes the
+    #    alternative and is waited for (sequential DFS), so no path is ever re-executed.
+    def _spawn(self):
+        """fork; returns (pid, concurrent).  Child: pid == 0."""
+        conc = SLOTS is not None and SLOTS.acquire(block=False)
+        pid = os.fork()
+        if pid == 0:
+            self._owns_slot = bool(conc)
+            self._kids = []
+            return 0, conc
+        if conc:
+            self._kids.append(pid)
+        return pid, conc
+
+    def _reset_child(self):
+        if self.child_hook is not None:
+            self.child_hook(self)
+        for k in self.stats:
+            self.stats[k] = 0 if not isinstance(self.stats[k], float) else 0.0
+        self.violations = []
+        self.illdefined = []
+        self.unknowns = []
+        self.samples = []
+        self.emitted = {}
+        self.errors = []
+        self.exhaustive = True
+        self._is_child = True
+
+    def _wait(self, pid):
+        _, status = os.waitpid(pid, 0)
+        if status != 0:
+            self.errors.append("explorer child exited with status %r at path %s" % (status, self.path_string()))
+
+    def _decide_fork(self, raw):
+        cond = _simp(raw)
+        if z3.is_true(cond):
+            return True
+        if z3.is_false(cond):
+            return False
+        if self.deadline is not None and time.time() > self.deadline:
+            raise BudgetExceeded()
+        m = self._ensure_model()
+        v = z3.is_true(m.eval(cond, model_completion=True))
+        other = z3.Not(cond) if v else cond
+        self._flush()
+        self.solver.push()
+        self.solver.add(other)
+        r = self._check()
+        m2 = self.solver.model() if r == z3.sat else None
+        self.solver.pop()
+        if r == z3.unknown:
+            self.unknowns.append("branch")
+        if r != z3.unsat:
+            self.stats["branch_points"] += 1
+            pid, conc = self._spawn()
+            if pid == 0:
+                self.path.append("T" if not v else "F")
+                self._reset_child()
+                self._add(other)
+                self.model = m2
+                return not v
+            if not conc:
+                self._wait(pid)
+            self.path.append("T" if v else "F")
+        self._add(cond if v else z3.Not(cond))
+        return v
+
+    def _fork_int_fork(self, raw):
+        e = _simp(raw)
+        if z3.is_int_value(e):
+            return e.as_long()
+        if self.deadline is not None and time.time() > self.deadline:
+            raise BudgetExceeded()
+        m = self._ensure_model()
+        v0 = m.eval(e, model_completion=True).as_long()
+        opts = [v0]
+        models = [m]
+        self._flush()
+        self.solver.push()
+        while True:
+            self.solver.add(e != opts[-1])
+            r = self._check()
+            if r != z3.sat:
+                if r == z3.unknown:
+                    self.unknowns.append("fork")
+                    self.exhaustive = False
+                break
+            mm = self.solver.model()
+            models.append(mm)
+            opts.append(mm.eval(e, model_completion=True).as_long())
+            if len(opts) > 4096:
+                self.solver.pop()
+                raise Unsupported("fork over more than 4096 values")
+        self.solver.pop()
+        if len(opts) > 1:
+            self.stats["forks"] += 1
+            for k in range(1, len(opts)):
+                pid, conc = self._spawn()
+                if pid == 0:
+                    self.path.append("<%d>" % opts[k])
+                    self._reset_child()
+                    self._add(e == opts[k])
+                    self.model = models[k]
+                    return opts[k]
+                if not conc:
+                    self._wait(pid)
+            self.path.append("<%d>" % v0)
+        self._add(e == v0)
+        return v0
+
+    def emit(self, key, obj):
+        self.emitted.setdefault(key, []).append(obj)
+
+    def _write_record(self, fd):
+        for h in self.exit_hooks:
+            try:
+                h(self)
+            except Exception as ex:  # pragma: no cover
+                self.errors.append("exit hook: %r" % (ex,))
+        viol = []
+        for v in self.violations:
+            v = dict(v)
+            v.pop("_m", None)
+            viol.append(v)
+        rec = dict(stats=self.stats, violations=viol, illdefined=self.illdefined, unknowns=self.unknowns,
+                   samples=self.samples, emitted=self.emitted, exhaustive=self.exhaustive, errors=self.errors)
+        blob = pickle.dumps(rec, protocol=4)
+        os.write(fd, struct.pack("<Q", len(blob)) + blob)
+
+    def _explore_fork(self, fn, on_leaf):
+        global _ENGINE
+        tf = tempfile.NamedTemporaryFile(prefix="symx-", suffix=".rec", delete=False)
+        tf.close()
+        fd = os.open(tf.name, os.O_WRONLY | os.O_APPEND)
+        pid = os.fork()
+        if pid == 0:
+            # ---- explorer (and, after forks, its descendants)
+            code = 0
+            self._owns_slot = False
+            self._kids = []
+            try:
+                if SLOTS is not None:
+                    SLOTS.acquire()
+                    self._owns_slot = True
+                _ENGINE = self
+                self.fork_live = True
+                self._is_child = True
+                self.pc = []
+                self._lazy = []
+                self._pending = []
+                self.track_vars = []
+                self.path = []
+                self.model = None
+                try:
+                    result = fn()
+                    self._ensure_model()
+                    self.stats["paths"] += 1
+                    if on_leaf is not None:
+                        on_leaf(self, result)
+                    self._discharge()
+                    import zlib
+                    if zlib.crc32(self.path_string().encode()) % 199 == 0 or not self.path:
+                        self.samples.append(dict(path=self.path_string(),
+                                                 path_condition=[str(c)[:200] for c in self.pc[:12]],
+                                                 n_constraints=len(self.pc)))
+                except PathAbort:
+                    self.stats["aborted"] += 1
+                except BudgetExceeded:
+                    self.exhaustive = False
+                except Exception as ex:
+                    import traceback
+                    self.errors.append("%s: %s\n%s" % (type(ex).__name__, ex, traceback.format_exc()[-3000:]))
+                self._write_record(fd)
+            except BaseException as ex:  # pragma: no cover
+                code = 1
+                try:
+                    os.write(2, ("symx explorer crashed: %r\n" % (ex,)).encode())
+                except Exception:
+                    pass
+            finally:
+                try:
+                    if self._owns_slot:
+                        SLOTS.release()
+                    for kid in self._kids:
+                        _, st = os.waitpid(kid, 0)
+                        if st != 0:
+                            code = 1
+                finally:
+                    os._exit(code)
+        # ---- collector
+        os.close(fd)
+        _, status = os.waitpid(pid, 0)
+        if status != 0:
+            self.errors.append("root explorer exited with status %r" % (status,))
+        data = open(tf.name, "rb").read()
+        os.unlink(tf.name)
+        off = 0
+        nsamp = 0
+        while off + 8 <= len(data):
+            (ln,) = struct.unpack_from("<Q", data, off)
+            off += 8
+            rec = pickle.loads(data[off:off + ln])
+            off += ln
+            for k, v in rec["stats"].items():
+                if k == "max_depth":
+                    continue
+                self.stats[k] = self.stats.get(k, 0) + v
+            self.violations.extend(rec["violations"])
+            self.illdefined.extend(rec["illdefined"])
+            self.unknowns.extend(rec["unknowns"])
+            if len(self.samples) < 3:
+                self.samples.extend(rec["samples"])
+            for k, v in rec["emitted"].items():
+                self.emitted.setdefault(k, []).extend(v)
+            self.exhaustive = self.exhaustive and rec["exhaustive"]
+            self.errors.extend(rec["errors"])
+        return self.stats
 
     def choose(self, n, tag="choice"):
         """harness-level nondeterministic choice among range(n) (explored exhaustively)."""
@@ -721,6 +984,7 @@ class Engine:
         c = _simp(c)
         if z3.is_true(c):
             return
+        self._flush()
         self.solver.push()
         self.solver.add(z3.Not(c))
         r = self._check()
@@ -756,6 +1020,7 @@ class Engine:
             return
         self.stats["obligations"] += len(pend)
         allp = z3.And([p for _, p, _ in pend]) if len(pend) > 1 else pend[0][1]
+        self._flush()
         self.solver.push()
         self.solver.add(z3.Not(allp))
         r = self._check()
@@ -764,6 +1029,7 @@ class Engine:
             self.stats["discharged"] += len(pend)
             return
         for name, p, info in pend:
+            self._flush()
             self.solver.push()
             self.solver.add(z3.Not(p))
             r = self._check()
@@ -801,6 +1067,8 @@ class Engine:
         raise Unsupported("cannot evaluate %s" % val)
 
     def path_string(self):
+        if self.fork_live:
+            return "".join(self.path)
         return "".join(("T" if d.options[d.idx] else "F") if d.kind == "b" else "<%d>" % d.options[d.idx]
                        for d in self.stack[:self.pos])
 
@@ -816,6 +1084,8 @@ class Engine:
         """run fn() over all feasible paths.  on_leaf(engine, result) is called with the
         engine still holding the path condition of that leaf."""
         global _ENGINE
+        if self.mode == "fork" and not prefix:
+            return self._explore_fork(fn, on_leaf)
         prev = _ENGINE
         _ENGINE = self
         try:
@@ -836,6 +1106,7 @@ class Engine:
                 self.solver.reset()
                 self.solver.set("timeout", self.solver_timeout_ms)
                 self.pc = []
+                self._lazy = []
                 self.pos = 0
                 self.model = None
                 self._pending = []
